@@ -16,6 +16,7 @@ import ast
 import hashlib
 import os
 import types
+import textwrap
 import sys
 
 sys.path.insert(0, os.path.dirname(os.path.abspath(__file__)))
@@ -1154,6 +1155,94 @@ SPECS.append(dict(D2_COMMON, name="Dec2.init", func="Decryptor.__init__", theore
                   state_calls={"self.get_cipher_type": dict(kind="shared", lean="Dec2.get_cipher_type", exts=[], args=[], ret="None"),
                                "self.parse_keys": dict(kind="shared", lean="Dec2.parse_keys", exts=[], args=["Table Str; Option Bytes"], ret="None")}))
 
+# main.py options (C10): `MapPortsAction.__call__` (the two `setattr` on the namespace as a record: what `-m` stores and
+# `keep_original_ports`; `self.dest` is "mapports", the dest argparse derives from `--mapports`), `get_port_map` (`int(str)` is the external
+# `py_int`, instantiated with the model's `pyInt`; `parser.mapports : Option (List Str)`, `none` = attribute absent or None), and the
+# built-in port list / the `-p` default / `server_ports.extend([int(x) …])`.
+GROUPS["Opts"] = dict(imports=["TLX.PyRt", "TLX.Options"], decls=[], options=["set_option linter.unusedVariables false"])
+SPECS.append(dict(name="Opts.MapPortsAction_call", group="Opts", file=MAINF, func="MapPortsAction.__call__", theorem="Opts.MapPortsAction_call_eq_model",
+                  params=[("values", "List Str")], ret="None", list_truth=True, setattr_names={"self.dest": "mapports"},
+                  places=[("namespace.mapports", "mapports", "List Str", "rw"),
+                          ("namespace.keep_original_ports", "keep", "Bool", "rw")]))
+SPECS.append(dict(name="Opts.get_port_map", group="Opts", file=MAINF, func="get_port_map", theorem="Opts.get_port_map_eq_model",
+                  params=[], ret="Table Int; Int", externals=[("py_int", "List Nat → Option Int")],
+                  places=[("parser.mapports", "mapports", "Option (List Str)", "r")], absent_or_none=["parser.mapports"],
+                  locals={"port_map": "Table Int; Int"}))
+SPECS.append(dict(name="Opts.extend_server_ports", group="Opts", file=MAINF, func="run", theorem="Opts.extend_server_ports_eq_model",
+                  select={"start": "server_ports.extend([int(x) for x in args.serverports])"},
+                  params=[], externals=[("py_int", "List Nat → Option Int")],
+                  places=[("server_ports", "server_ports", "List Int", "rw"), ("args.serverports", "serverports", "List Str", "r")]))
+# the same statement when `-p` is absent: argparse stores its default, a list of ints (`int(x)` of an int is the int)
+SPECS.append(dict(name="Opts.extend_server_ports_default", group="Opts", file=MAINF, func="run", theorem="Opts.extend_server_ports_eq_model",
+                  select={"start": "server_ports.extend([int(x) for x in args.serverports])"},
+                  params=[], places=[("server_ports", "server_ports", "List Int", "rw"), ("args.serverports", "serverports", "List Int", "r")]))
+SPECS.append(dict(name="Opts.builtin_server_ports", group="Opts", kind="table", file=MAINF, func=None, target="server_ports", type="List Int",
+                  theorem="Opts.extend_server_ports_eq_model"))
+
+# session.py key selection (C01, C15): `find_session_secrets` whole (the key-log lines of this client random; `str.lower` is the external
+# `str_lower`, instantiated with the model's `lower`; the statements that only build the log text
+# are dropped), and two fragments of `generate_keys`: the choice of the secret line (the (pre-)master-secret filter for TLS ≤ 1.2, the
+# "Missing Secrets" exits) and the block-size table. The key-derivation dispatch (`match tls_version:`) is not translated here.
+TKF = "tlexport/session.py"
+GROUPS["TlsKeys"] = dict(imports=["TLX.PyRt", "TLX.Keylog", "TLX.Pipeline"], options=["set_option linter.unusedVariables false"],
+                         decls=[])
+TK_ATTRS = {(KOBJ, "client_random"): ("TLX.Keylog.Key.clientRandom", "Str"), (KOBJ, "label"): ("TLX.Keylog.Key.label", "Str"),
+            (KOBJ, "value"): ("TLX.Keylog.Key.value", "Str")}
+SPECS.append(dict(name="TK.find_session_secrets", group="TlsKeys", file=TKF, func="Session.find_session_secrets",
+                  theorem="TlsKeys.find_session_secrets_eq_model", params=[], ret=f"List {KOBJ}",
+                  externals=[("str_lower", "List Nat → List Nat")], attr_funcs=TK_ATTRS, consts=TLSVER,
+                  locals={"secrets": f"List {KOBJ}"}, drop_stmts=["logging_string", "for secret in secrets:"],
+                  places=[("self.keylog", "keylog", f"List {KOBJ}", "r"), ("self.client_random", "client_random", "Bytes", "r"),
+                          ("self.tls_version", "tls_version", f"Option {VER}", "r")]))
+SPECS.append(dict(name="TK.select_secret", group="TlsKeys", file=TKF, func="Session.generate_keys", theorem="TlsKeys.select_secret_eq_model",
+                  select={"start": "secret_list = self.find_session_secrets()", "end": "try:\n    secret = secret_list[0]"},
+                  params=[("tls_version", f"Option {VER}")], exits=True, externals=[("str_lower", "List Nat → List Nat")],
+                  attr_funcs=TK_ATTRS, consts=TLSVER, outs=[("secret_list", f"List {KOBJ}")],
+                  places=[("self.keylog", "keylog", f"List {KOBJ}", "r"), ("self.client_random", "client_random", "Bytes", "r"),
+                          ("self.tls_version", "self_tls_version", f"Option {VER}", "r"), ("self.can_decrypt", "can_decrypt", "Bool", "rw")],
+                  calls={"self.find_session_secrets": dict(lean="TK.find_session_secrets str_lower keylog client_random self_tls_version",
+                                                           args=[], ret=f"List {KOBJ}")}))
+SPECS.append(dict(name="TK.block_size", group="TlsKeys", file=TKF, func="Session.generate_keys", theorem="TlsKeys.block_size_eq_model",
+                  select={"start": "block_size = 0", "end": "if algo in [AES, AESCCM, AESGCM, Camellia]:"},
+                  params=[("algo0", ALG)], outs=[("block_size", "Nat")],
+                  consts={**ALG_CONSTS, "cipher_suite['CryptoAlgo'][0]": ("algo0", ALG)}))
+# the end of generate_keys: the block-size table and the `Decryptor(...)` call — which resolved-suite field goes to which constructor
+# parameter (the constructor itself is group Decrypt2; here it is the external `mk_decryptor`, the values read from the suite dict are parameters)
+SPECS.append(dict(name="TK.install", group="TlsKeys", file=TKF, func="Session.generate_keys", theorem="TlsKeys.install_eq_model",
+                  select={"start": "block_size = 0", "end": "self.decryptor = Decryptor("},
+                  tparams=["μ", "η", "κ", "ε", "δ"], st_tparams=["δ"], params=[("algo0", ALG), ("mode0", "μ"), ("mac", "η"), ("keys", "κ"), ("key_length", "Nat"),
+                                                           ("digest_size", "Nat"), ("tag_length", "Option Nat")],
+                  externals=[("mk_decryptor", f"{ALG} → μ → η → κ → Option {VER} → Nat → Nat → Option Nat → Nat → ε → Nat → δ")],
+                  places=[("self.decryptor", "decryptor", "δ", "rw"), ("self.tls_version", "tls_version", f"Option {VER}", "r"),
+                          ("self.extensions", "extensions", "ε", "r"), ("self.compression_method", "compression_method", "Nat", "r")],
+                  consts={**ALG_CONSTS, "cipher_suite['CryptoAlgo'][0]": ("algo0", ALG), "cipher_suite['Mode'][0]": ("mode0", "μ"),
+                          "cipher_suite['MAC']": ("mac", "η"), "cipher_suite['KeyLength']": ("key_length", "Nat"),
+                          "cipher_suite['MAC'].digest_size": ("digest_size", "Nat"), "cipher_suite['TagLength']": ("tag_length", "Option Nat")},
+                  calls={"Decryptor": dict(lean="mk_decryptor", args=[ALG, "μ", "η", "κ", f"Option {VER}", "Nat", "Nat", "Option Nat", "Nat", "ε", "Nat"],
+                                           ret="δ")}))
+
+# dpkt_dsb.py (C12): `DecryptionSecretBlock.unpack`. dpkt itself is outside the subset (struct formats built by a metaclass): the
+# header unpack `dpkt.Packet.unpack(self, buf)` is stated as the two fields the method reads, from the externals `hdr_len` (raises where
+# the buffer is shorter than the header: `struct.error`, which `dpkt.Packet.__init__` turns into NeedData — both are `.struct` here) and
+# `hdr_slen`; `_do_unpack_options` is the external `unpack_options`; `dpng._align32b` is the model's `align4`; `__hdr_len__` is 20
+# (five 'I' fields). The Reader (`__init__`, `__iter__`: file objects, generators, floats) is refused, see OUTSIDE.
+DSBF = "tlexport/dpkt_dsb.py"
+COPT = "TLX.Container.Opt"
+GROUPS["Dsb"] = dict(imports=["TLX.PyRt", "TLX.Container"], decls=[], options=["set_option linter.unusedVariables false"])
+SPECS.append(dict(name="Dsb.unpack", group="Dsb", file=DSBF, func="DecryptionSecretBlock.unpack", theorem="Dsb.unpack_eq_model",
+                  params=[("buf", "Bytes")], ret="None", raise_state=False,
+                  externals=[("hdr_len", "Bytes → Except PyRt.Err Nat"), ("hdr_slen", "Bytes → Nat"),
+                             ("unpack_options", f"Bytes → Nat → Int → Except PyRt.Err (List {COPT})")],
+                  places=[("self.len", "len", "Nat", "rw"), ("self.secrets_length", "secrets_length", "Nat", "rw"),
+                          ("self.pkt_data", "pkt_data", "Bytes", "rw"), ("self.opts", "opts", f"List {COPT}", "rw")],
+                  consts={"self.__hdr_len__": ("(20 : Nat)", "Nat")}, raise_as={"dpkt.NeedData": "struct"},
+                  stmt_rewrites={"dpkt.Packet.unpack(self, buf)": "self.len = HDR_LEN(buf)\nself.secrets_length = HDR_SLEN(buf)",
+                                 "self._do_unpack_options(buf, opts_offset)": "self.opts = UNPACK_OPTIONS(buf, self.len, opts_offset)"},
+                  calls={"HDR_LEN": dict(lean="hdr_len", args=["Bytes"], ret="Nat", raises=True),
+                         "HDR_SLEN": dict(lean="hdr_slen", args=["Bytes"], ret="Nat"),
+                         "UNPACK_OPTIONS": dict(lean="unpack_options", args=["Bytes", "Nat", "Int"], ret=f"List {COPT}", raises=True),
+                         "dpng._align32b": dict(lean="TLX.Container.align4", args=["Nat"], ret="Nat")}))
+
 THEOREMS = _uniq(theorem_of(s) for s in SPECS)
 
 
@@ -1174,7 +1263,7 @@ MODULES = group_modules(GROUPS)          # all groups (`TLX.Props.Translated` im
 
 # property → the groups whose translated functions its model functions are (what the check proves besides its own modules)
 CHECK_GROUPS = {
-    "C01": ["TlsSess", "Suites", "TlsSess2", "Decrypt", "Decrypt2"],
+    "C01": ["TlsSess", "Suites", "TlsSess2", "Decrypt", "Decrypt2", "TlsKeys"],
     "C02": ["QuicDissect", "QuicSess", "Pn", "Varint", "Frames", "QuicDissect2", "QuicTls", "QuicSess2", "QuicSess3"],
     "C03": ["TlsSess", "QuicDissect", "Varint", "QuicDissect2", "TlsSess2", "QuicSess2"],
     "C04": ["Demux", "QuicSess", "QuicDissect", "Main2"],
@@ -1183,11 +1272,12 @@ CHECK_GROUPS = {
     "C07": ["Ports", "Builders"],
     "C08": ["Main2"],
     "C09": ["Keylog"],
-    "C10": ["Ports", "Builders"],
+    "C10": ["Ports", "Builders", "Opts"],
     "C11": ["Checksum"],
+    "C12": ["Dsb"],
     "C13": ["TlsSess", "TlsSess2"],
     "C14": ["Suites"],
-    "C15": ["KeySched", "QuicSess3", "Decrypt2"],
+    "C15": ["KeySched", "QuicSess3", "Decrypt2", "TlsKeys"],
     "C16": ["Pn", "QuicSess2"],
     "C17": ["Varint", "Frames"],
     "C18": ["Demux", "Main2"],
@@ -1976,6 +2066,155 @@ def _kl_cases(rng, call):
     return out
 
 
+def _opts_cases(rng, call):
+    """main.py options (group Opts): `MapPortsAction.__call__` on a namespace, `get_port_map` on namespaces with and without `mapports`
+    (the translation with the model's `pyInt` as `py_int` against CPython's `int`), the `server_ports.extend` statement of `run`.
+    The strings stay below U+0100: `TLX.Options.pyInt` models `int()` on latin-1 text only (its header says so); CPython's `int` also
+    accepts other Unicode decimal digits and spaces (`int("\u0661") == 1`), where the instantiated external and CPython differ."""
+    import importlib
+    import argparse
+    main = importlib.import_module("tlexport.main")
+    out = []
+    st = lambda x: "([" + ", ".join(str(ord(c)) for c in x) + "] : List Nat)"
+    sl = lambda xs: "([" + ", ".join(st(x) for x in xs) + "] : List (List Nat))"
+    il = lambda xs: "([" + ", ".join(f"({x} : Int)" for x in xs) + "] : List Int)"
+    num = lambda: rng.choice(["443", "8080", " 80", "+5", "-1", "1_0", "4 4", "", "x", "0x10", "65536", "1__0", "\t7\n", "_1", "\xa07", "\x1c7"])
+    tok = lambda: rng.choice([f"{num()}:{num()}", f"{num()}:{num()},", f"{num()}", f"{num()}:{num()}:{num()}", f"4,43:{num()}", ":", ""])
+    for _ in range(3):
+        vals = [tok() for _ in range(rng.randint(0, 3))]
+        ns = argparse.Namespace()
+        call(main.MapPortsAction.__call__, types.SimpleNamespace(dest="mapports"), None, ns, list(vals))
+        out.append(("(fun v => let r := Opts.MapPortsAction_call v; (r.mapports, r.keep))", sl(vals),
+                    f"({sl(ns.mapports)}, {_bool(ns.keep_original_ports)})"))
+    for _ in range(5):
+        vals = [tok() for _ in range(rng.randint(0, 4))]
+        if rng.random() < 0.4:
+            vals = [f"{rng.choice([443, 80, 1])}:{rng.randint(1, 9)}" for _ in range(rng.randint(1, 4))]
+        ns = rng.choice([argparse.Namespace(), argparse.Namespace(mapports=None), argparse.Namespace(mapports=vals), argparse.Namespace(mapports=vals)])
+        k, v = call(main.get_port_map, ns)
+        arg = f"(some {sl(ns.mapports)})" if getattr(ns, "mapports", None) is not None else "(none : Option (List (List Nat)))"
+        exp = ("[" + ", ".join(f"(({a} : Int), ({b} : Int))" for a, b in v.items()) + "]") if k == "ok" else None
+        out.append(("Opts.get_port_map TLX.Options.pyInt", arg, f".ok {exp}" if k == "ok" else f".error .{v}"))
+    for _ in range(3):
+        vals = [num() for _ in range(rng.randint(0, 3))]
+        sp0 = [rng.randint(0, 70000) for _ in range(rng.randint(0, 3))]
+        sp = list(sp0)
+        k, v = call(lambda a: sp.extend([int(x) for x in a]), vals)          # the statement of `run` (its text is what is translated)
+        out.append(("Opts.extend_server_ports TLX.Options.pyInt", f"{il(sp0)} {sl(vals)}",
+                    f".ok () {{ server_ports := {il(sp)} }}" if k == "ok" else f".raised .{v} {{ server_ports := {il(sp)} }}"))
+    out.append(("Opts.builtin_server_ports", "", il(main.server_ports)))
+    return out
+
+
+def _tk_cases(rng, call):
+    """session.py key selection (group TlsKeys): `find_session_secrets` on toy key logs (ASCII text: `str_lower` is the model's `lower`);
+    the two fragments of `generate_keys` are executed from their own source text (the statements `py2lean.select` picks, wrapped in a
+    function: a `return` in the fragment gives None, reaching its end gives the locals)"""
+    import importlib
+    import inspect
+    ses = importlib.import_module("tlexport.session")
+    out = []
+    st = lambda x: "([" + ", ".join(str(ord(c)) for c in x) + "] : List Nat)"
+    kobj = lambda k: f"(⟨{st(k.label)}, {st(k.client_random)}, {st(k.value)}⟩ : TLX.Keylog.Key)"
+    klist = lambda ks: "([" + ", ".join(kobj(k) for k in ks) + "] : List TLX.Keylog.Key)"
+    trip = lambda ks: "[" + ", ".join(f"({st(k.label)}, {st(k.client_random)}, {st(k.value)})" for k in ks) + "]"
+    vopt = lambda v: "(none : Option TLX.Session.Ver)" if v is None or v.name == "UNDEFINED" else f"(some {TLSVER['TlsVersion.' + v.name][0]})"
+    fn = next(n for n in ast.walk(ast.parse(textwrap.dedent(inspect.getsource(ses.Session)))) if isinstance(n, ast.FunctionDef) and n.name == "generate_keys")
+
+    def frag(sel, params, result):
+        _, stmts = py2lean.select(fn, sel, "generate_keys")
+        f = ast.FunctionDef(name="frag", args=ast.arguments(posonlyargs=[], args=[ast.arg(arg=a) for a in params], kwonlyargs=[], kw_defaults=[], defaults=[]),
+                            body=list(stmts) + [ast.parse(f"return ({result},)").body[0]], decorator_list=[], type_params=[])
+        mod = ast.Module(body=[f], type_ignores=[])
+        ast.fix_missing_locations(mod)
+        ns = dict(vars(ses))
+        exec(compile(mod, "<fragment>", "exec"), ns)
+        return ns["frag"]
+    f_sel = frag({"start": "secret_list = self.find_session_secrets()", "end": "try:\n    secret = secret_list[0]"}, ["self", "tls_version"], "secret_list")
+    f_blk = frag({"start": "block_size = 0", "end": "if algo in [AES, AESCCM, AESGCM, Camellia]:"}, ["cipher_suite"], "block_size")
+    labels = ["CLIENT_RANDOM", "RSA", "CLIENT_HANDSHAKE_TRAFFIC_SECRET", "SERVER_HANDSHAKE_TRAFFIC_SECRET", "CLIENT_TRAFFIC_SECRET_0", "client_random", "X"]
+    for i in range(6):
+        cr = bytes(rng.randrange(256) for _ in range(rng.choice([0, 1, 2, 32])))
+        other = bytes(rng.randrange(256) for _ in range(2))
+        crs = lambda: rng.choice([cr.hex(), cr.hex().upper(), cr.hex().capitalize(), other.hex(), cr.hex() + "0", ""])
+        kl = [types.SimpleNamespace(label=rng.choice(labels), client_random=crs(), value=rng.choice(["ab", "", "zz"])) for _ in range(rng.randint(0, 5))]
+        v = rng.choice([None] + list(ses.TlsVersion))
+        me = types.SimpleNamespace(keylog=kl, client_random=cr, tls_version=v, can_decrypt=True, server_ip=b"", client_ip=b"", server_port=1,
+                                   client_port=2, binary_to_ip=lambda x: x)
+        me.find_session_secrets = lambda me=me: ses.Session.find_session_secrets(me)
+        if i % 2 == 0:
+            k, r = call(ses.Session.find_session_secrets, me)
+            out.append(("(fun kl cr v => (TK.find_session_secrets TLX.Keylog.lower kl cr v).map fun k => (k.label, k.clientRandom, k.value))",
+                        f"{klist(kl)} {_b(cr)} {vopt(v)}", trip(r)))
+        else:
+            k, r = call(f_sel, me, v)
+            exp = (f"(PyRt.Exit.ret, {_bool(me.can_decrypt)}, ([] : List (List Nat × List Nat × List Nat)))" if r is None
+                   else f"(PyRt.Exit.fall, {_bool(me.can_decrypt)}, {trip(r[0])})")
+            out.append(("(fun kl cr v => match TK.select_secret TLX.Keylog.lower v kl cr v true with "
+                        "| .ok e s => (e, s.can_decrypt, s.secret_list.map fun k => (k.label, k.clientRandom, k.value)) "
+                        "| .raised _ s => (PyRt.Exit.brk, s.can_decrypt, []))", f"{klist(kl)} {_b(cr)} {vopt(v)}", exp))
+    for name, (term, _) in ALG_CONSTS.items():
+        k, r = call(f_blk, {"CryptoAlgo": (getattr(ses, name), False)} if hasattr(ses, name) else None)
+        if k == "ok":
+            out.append(("(fun a => (TK.block_size a).block_size)", term, str(r[0])))
+    f_ins = frag({"start": "block_size = 0", "end": "self.decryptor = Decryptor("}, ["self", "cipher_suite", "keys", "Decryptor"], "self.decryptor")
+    for name, (term, _) in ALG_CONSTS.items():
+        if not hasattr(ses, name):
+            continue
+        kl_, ds_, tl_, m_, k_, ex_, c_ = (rng.randint(0, 40) for _ in range(7))
+        tl_ = rng.choice([None, tl_])
+        v = rng.choice(list(ses.TlsVersion))
+        me = types.SimpleNamespace(tls_version=v, extensions=ex_, compression_method=c_, decryptor=None)
+        suite = {"CryptoAlgo": (getattr(ses, name), False), "Mode": (m_, None), "MAC": types.SimpleNamespace(digest_size=ds_, code=2),
+                 "KeyLength": kl_, "TagLength": tl_}
+        k, r = call(f_ins, me, suite, k_, lambda *a: list(a))
+        a = r[0]
+        exp = [a[1], a[2].code, a[3], 12 if a[4] == ses.TlsVersion.TLS12 else 0, a[5], a[6], 99 if a[7] is None else a[7], a[8], a[9], a[10]]
+        out.append(("(fun a v => (TK.install (fun _ m mac k v kl ds tl bs ex c => [m, mac, k, (if v = some TLX.Session.Ver.tls12 then 12 else 0), kl, ds, "
+                    f"tl.getD 99, bs, ex, c]) a {m_} 2 {k_} {kl_} {ds_} {'none' if tl_ is None else f'(some {tl_})'} v {ex_} {c_}).decryptor)",
+                    f"{term} {vopt(v)}", "[" + ", ".join(str(x) for x in exp) + "]"))
+    return out
+
+
+def _dsb_cases(rng, call):
+    """dpkt_dsb.py (group Dsb): `DecryptionSecretBlock(buf)` / `DecryptionSecretBlockLE(buf)` of the REAL classes (dpkt underneath) on
+    well-formed blocks, blocks with options, truncated blocks, wrong length fields — against the translation with the model's
+    `fld` / `blockTail` as the dpkt externals (NeedData = `.struct`, UnpackError = `.value`, UnicodeDecodeError = `.type`).
+    The `len` field stays ≥ 7: below, `_do_unpack_options` slices with a negative bound, which `blockTail` does not model (its header
+    says so: the Reader has raised on such a length before any block class is built)."""
+    import importlib
+    import struct
+    import dpkt
+    dd = importlib.import_module("tlexport.dpkt_dsb")
+    out = []
+    for _ in range(6):
+        le = rng.random() < 0.5
+        o = "<" if le else ">"
+        data = bytes(rng.randrange(256) for _ in range(rng.choice([0, 1, 3, 4, 7, 16])))
+        pad = b"\0" * (-len(data) % 4)
+        opts = rng.choice([b"", struct.pack(o + "HH", 1, 2) + b"hi\0\0" + struct.pack(o + "HH", 0, 0), struct.pack(o + "HH", 1, 1) + b"\xff\0\0\0",
+                           struct.pack(o + "HH", 5, 3) + b"abc"])
+        n = 20 + len(data) + len(pad) + len(opts)
+        slen = rng.choice([len(data), len(data), len(data) + 1, 0, 1000])
+        buf = struct.pack(o + "IIII", 10, rng.choice([n, n, n, n + 4, 12, 7]), rng.choice([0x544c534b, 0]), slen) + data + pad + opts \
+            + struct.pack(o + "I", rng.choice([n, n, n, n + 1]))
+        buf = rng.choice([buf, buf, buf, buf[:rng.randint(0, len(buf))], buf + b"\1\2\3\4"])
+        try:
+            exp = ".ok " + _b((dd.DecryptionSecretBlockLE if le else dd.DecryptionSecretBlock)(buf).pkt_data)
+        except dpkt.NeedData:
+            exp = ".error .struct"
+        except dpkt.UnpackError:
+            exp = ".error .value"
+        except UnicodeDecodeError:
+            exp = ".error .type"
+        e = "TLX.Container.Endian." + ("le" if le else "be")
+        out.append((f"(fun buf => (Dsb.unpack (fun b => if b.length < 20 then .error .struct else .ok (TLX.Container.fld {e} b 4 4)) "
+                    f"(fun b => TLX.Container.fld {e} b 12 4) (fun b l oo => match TLX.Container.blockTail {e} b l oo.toNat with "
+                    "| .ok o => .ok o | .error .needData => .error .struct | .error .lenMismatch => .error .value | .error _ => .error .type) buf).map (·.pkt_data))",
+                    _b(buf), exp))
+    return out
+
+
 def _d2_cases(rng, call):
     """Decryptor.__init__ (group Decrypt2) on an object made without it, with the real `cryptography` classes (ARC4 keys of 16 / 3 bytes
     or None, `ChaCha20(key)` without a nonce); the attributes the constructor does not assign are sentinels on the Lean side and
@@ -2683,6 +2922,9 @@ def _cases(rng, n):
         out.extend(_kl_cases(rng, call))
         out.extend(_qs3_cases(rng, call))
         out.extend(_d2_cases(rng, call))
+        out.extend(_opts_cases(rng, call))
+        out.extend(_tk_cases(rng, call))
+        out.extend(_dsb_cases(rng, call))
         for _ in range(2):
             out.extend(_bld_cases(rng, call))
         # output builders
